@@ -74,6 +74,11 @@ def _cases_core(rng, tier):
         for k in (kb, ka):
             yield "priv_int %d" % k, "projection-siblings-int"
             yield "from_wif " + sx(b58check_enc(b"\x80" + k.to_bytes(32, "big") + b"\x01")), "projection-siblings-wif"
+    # points at the boundaries of the coordinate range
+    for sec33 in common.boundary_points():
+        yield "sec_parse " + hx(sec33), "sec-boundary-x"
+        vk = ecdsa.VerifyingKey.from_string(sec33, curve=ecdsa.SECP256k1)
+        yield "sec_parse " + hx(vk.to_string("uncompressed")), "sec-boundary-x-uncompressed"
     # rejection of scalars
     for v in (0, N, N + 1, 2 ** 256 - 1, 2 ** 256, 2 ** 256 + 5, N + 2 ** 200):
         yield "priv_int %d" % v, "priv-int-reject"
